@@ -14,7 +14,7 @@ static const char *const cmn[CM_N] = { "cancel before activation", "cancel from 
 	"cancel from its own registration handler (events already pending)" };
 
 static struct {
-	int stype, cmode, tqkind, use_socket, peer_closes, cancel_after, sibling;
+	int stype, cmode, tqkind, use_socket, peer_closes, cancel_after, sibling, susp_cancel;
 	dispatch_source_t ds, sib;
 	dispatch_queue_t tq;
 	int fds[2];          // [0] monitored end, [1] peer end
@@ -138,7 +138,12 @@ static void *canceller_thread(void *arg) {
 		if (C.cancel_after && !second) sim_event_wait(&C.handler_seen, 2 * MSEC);
 		sim_sleep_ns((uint64_t)((RC.seed >> 9) % 150) * USEC + (second ? 30 * USEC : 0));
 		if (C.cmode == CM_FROM_TARGET_ITEM) dispatch_async_f(C.tq, NULL, target_item_cancel);
-		else if (C.cmode == CM_OTHER_THREAD || C.cmode == CM_TWICE) do_cancel(second ? "second thread" : "other thread");
+		else if (C.cmode == CM_OTHER_THREAD || C.cmode == CM_TWICE) {
+			// in a fifth of the runs the source is suspended while it is cancelled and resumed afterwards
+			if (C.susp_cancel && !second) { h_log("suspend"); dispatch_suspend(C.ds); sim_point(); }
+			do_cancel(second ? "second thread" : "other thread");
+			if (C.susp_cancel && !second) { sim_point(); h_log("resume"); dispatch_resume(C.ds); }
+		}
 		else if (C.cmode == CM_AND_WAIT) {
 			C.cancel_call = h_stamp();
 			h_log("cancel_and_wait");
@@ -170,10 +175,11 @@ static void c16_run(void) {
 	C.tqkind = C.cmode == CM_FROM_TARGET_ITEM ? 0 : (int)g_n(3);
 	C.use_socket = g_chance(1, 2); C.peer_closes = g_chance(1, 2) ? g_range(1, 10) : 0;
 	C.cancel_after = g_range(0, 3);
+	C.susp_cancel = g_chance(1, 5);
 	C.sibling = ((C.stype == ST_READ || C.stype == ST_WRITE) && C.use_socket && g_chance(1, 3)) || (C.stype == ST_SIGNAL && g_chance(1, 3));
-	h_sample("%s source on a %s queue%s; %s after >= %d handler invocation(s)%s%s\n", stn[C.stype], C.tqkind == 0 ? "serial" : C.tqkind == 1 ? "concurrent" : "global",
+	h_sample("%s source on a %s queue%s; %s after >= %d handler invocation(s)%s%s%s\n", stn[C.stype], C.tqkind == 0 ? "serial" : C.tqkind == 1 ? "concurrent" : "global",
 		(C.stype == ST_READ || C.stype == ST_WRITE) ? (C.use_socket ? " (socketpair)" : " (pipe)") : "", cmn[C.cmode], C.cancel_after, (C.peer_closes && (C.stype == ST_READ || C.stype == ST_WRITE)) ? "; the peer closes its end during the run" : "",
-		C.sibling ? (C.stype == ST_SIGNAL ? "; a second source monitors the same signal" : "; a second source monitors the other direction of the same descriptor") : "");
+		(C.susp_cancel && (C.cmode == CM_OTHER_THREAD || C.cmode == CM_TWICE)) ? "; suspended while it is cancelled" : "", C.sibling ? (C.stype == ST_SIGNAL ? "; a second source monitors the same signal" : "; a second source monitors the other direction of the same descriptor") : "");
 	h_announce();
 	C.tq = C.tqkind == 0 ? dispatch_queue_create("c16-serial", NULL) : C.tqkind == 1 ? dispatch_queue_create("c16-conc", DISPATCH_QUEUE_CONCURRENT) : dispatch_get_global_queue(0, 0);
 	if (C.tqkind != 2) dispatch_queue_set_specific(C.tq, &C.key, &C.key, NULL);
